@@ -28,8 +28,25 @@ struct World<S: Service> {
     sub_labels: std::collections::HashSet<usize>,
 }
 
+struct SliceWorld<S: Service> {
+    node: Option<Node<S>>,
+    service: Option<iceoryx2::service::port_factory::publish_subscribe::PortFactory<S, [u64], ()>>,
+    prefix: String,
+    node_dir: String,
+    pubs: HashMap<usize, Publisher<S, [u64], ()>>,
+    subs: HashMap<usize, Subscriber<S, [u64], ()>>,
+    loans: HashMap<(usize, usize), SampleMutUninit<S, [MaybeUninit<u64>], ()>>,
+    samples: HashMap<usize, Vec<(Sample<S, [u64], ()>, u64)>>,
+    pub_ids: HashMap<u128, usize>,
+    max_borrow: usize,
+    pub_labels: std::collections::HashSet<usize>,
+    sub_labels: std::collections::HashSet<usize>,
+}
+
 pub enum AnyWorld {
     None,
+    LocalSlice(Box<SliceWorld<local::Service>>),
+    IpcSlice(Box<SliceWorld<ipc::Service>>),
     Local(Box<World<local::Service>>),
     Ipc(Box<World<ipc::Service>>),
 }
@@ -67,6 +84,30 @@ fn mk<S: Service>(t: &[&str]) -> Result<World<S>, String> {
         .map_err(|e| format!("err:service:{e:?}"))?;
     let node_dir = format!("{}", node.id().value());
     Ok(World { node: Some(node), service: Some(service), prefix, node_dir, pubs: HashMap::new(), subs: HashMap::new(), loans: HashMap::new(), samples: HashMap::new(), pub_ids: HashMap::new(), max_borrow: n(t[6]).max(1), pub_labels: Default::default(), sub_labels: Default::default() })
+}
+
+fn mk_slice<S: Service>(t: &[&str]) -> Result<SliceWorld<S>, String> {
+    let k = SERVICE_COUNTER.fetch_add(1, std::sync::atomic::Ordering::Relaxed);
+    let mut config = iceoryx2::config::Config::global_config().clone();
+    config.defaults.publish_subscribe.subscriber_expired_connection_buffer = n(t[8]);
+    // own domain: nothing is shared with other iceoryx2 users of this machine (test suites, other checks)
+    let prefix = format!("vf{}c{}_", std::process::id(), k);
+    config.global.prefix = iceoryx2_bb_system_types::file_name::FileName::new(prefix.as_bytes()).unwrap();
+    let node = NodeBuilder::new().config(&config).create::<S>().map_err(|e| format!("err:node:{e:?}"))?;
+    let name = ServiceName::new(&format!("verif/pubsub/{}/{k}", std::process::id())).unwrap();
+    let service = node
+        .service_builder(&name)
+        .publish_subscribe::<[u64]>()
+        .max_publishers(n(t[2]))
+        .max_subscribers(n(t[3]))
+        .subscriber_max_buffer_size(n(t[4]))
+        .history_size(n(t[5]))
+        .subscriber_max_borrowed_samples(n(t[6]))
+        .enable_safe_overflow(n(t[7]) == 1)
+        .create()
+        .map_err(|e| format!("err:service:{e:?}"))?;
+    let node_dir = format!("{}", node.id().value());
+    Ok(SliceWorld { node: Some(node), service: Some(service), prefix, node_dir, pubs: HashMap::new(), subs: HashMap::new(), loans: HashMap::new(), samples: HashMap::new(), pub_ids: HashMap::new(), max_borrow: n(t[6]).max(1), pub_labels: Default::default(), sub_labels: Default::default() })
 }
 
 fn exec<S: Service>(w: &mut World<S>, t: &[&str]) -> String {
@@ -175,6 +216,123 @@ fn exec<S: Service>(w: &mut World<S>, t: &[&str]) -> String {
     r
 }
 
+fn exec_slice<S: Service>(w: &mut SliceWorld<S>, t: &[&str]) -> String {
+    let r = match t[0] {
+        "cpub" => {
+            // cpub <p> <max_loans>
+            if w.pub_labels.contains(&n(t[1])) { "dup".to_string() } else {
+            if w.service.is_none() { return "no-service".to_string(); }
+            match w.service.as_ref().unwrap().publisher_builder().max_loaned_samples(n(t[2])).backpressure_strategy(BackpressureStrategy::DiscardData).initial_max_slice_len(1).allocation_strategy(iceoryx2_bb_elementary::allocation_strategy::AllocationStrategy::PowerOfTwo).create() {
+                Ok(p) => {
+                    w.pub_ids.insert(p.id().value(), n(t[1]));
+                    w.pub_labels.insert(n(t[1]));
+                    w.pubs.insert(n(t[1]), p);
+                    "ok".to_string()
+                }
+                Err(e) => format!("err:{e:?}"),
+            }
+            }
+        }
+        "dpub" => match w.pubs.remove(&n(t[1])) { Some(p) => { drop(p); "ok".into() } None => "none".into() },
+        "csub" => {
+            // csub <s> <buffer size or -> <history request or ->
+            if w.sub_labels.contains(&n(t[1])) { "dup".to_string() } else {
+            if w.service.is_none() { return "no-service".to_string(); }
+            let mut b = w.service.as_ref().unwrap().subscriber_builder();
+            if t[2] != "-" { b = b.buffer_size(n(t[2])); }
+            if t[3] != "-" { b = b.history_request(n(t[3])); }
+            match b.create() {
+                Ok(s) => { w.subs.insert(n(t[1]), s); w.sub_labels.insert(n(t[1])); w.samples.insert(n(t[1]), vec![]); "ok".to_string() }
+                Err(e) => format!("err:{e:?}"),
+            }
+            }
+        }
+        "dsub" => match w.subs.remove(&n(t[1])) { Some(s) => { drop(s); "ok".into() } None => "none".into() },
+        "loans" | "loan" => match w.pubs.get(&n(t[1])) {
+            Some(_) if w.loans.contains_key(&(n(t[1]), n(t[2]))) => "dup".into(),
+            Some(p) => match p.loan_slice_uninit(if t.len() > 3 { n(t[3]).max(1) } else { 1 }) {
+                Ok(s) => { w.loans.insert((n(t[1]), n(t[2])), s); "ok".into() }
+                Err(e) => format!("err:{e:?}"),
+            },
+            None => "none".into(),
+        },
+        "send" => match w.loans.remove(&(n(t[1]), n(t[2]))) {
+            // send <p> <l> <tag>
+            Some(s) => {
+                let tag = t[3].parse::<u64>().unwrap();
+                let len = s.payload().len();
+                let s = s.write_from_fn(|i| if i == 0 { tag } else { tag.wrapping_mul(1000).wrapping_add(i as u64 + len as u64) });
+                match s.send() { Ok(k) => format!("ok:{k}"), Err(e) => format!("err:{e:?}") }
+            }
+            None => "none".into(),
+        },
+        "probe" => match w.pubs.get(&n(t[1])) {
+            // loan until refused, report how many loans succeeded and why the next one failed, give all back
+            Some(p) => {
+                let mut v = vec![];
+                let e = loop {
+                    match p.loan_slice_uninit(1) { Ok(s) => v.push(s), Err(e) => break format!("{e:?}") }
+                    if v.len() > 1000 { break "unbounded".to_string() }
+                };
+                let k = v.len();
+                for s in v.drain(..) { drop(s); }
+                format!("{k}:{e}")
+            }
+            None => "none".into(),
+        },
+        // C17: the node handle / the service handle are dropped while everything else lives on
+        "dnode" => match w.node.take() { Some(n) => { drop(n); "ok".into() } None => "none".into() },
+        "dsvc" => match w.service.take() { Some(n) => { drop(n); "ok".into() } None => "none".into() },
+        "ls" => list_resources(&w.prefix, &w.node_dir),
+        "dloan" => match w.loans.remove(&(n(t[1]), n(t[2]))) { Some(s) => { drop(s); "ok".into() } None => "none".into() },
+        "recv" => match w.subs.get(&n(t[1])) {
+            Some(s) => match s.receive() {
+                Ok(Some(sample)) => {
+                    let tag = sample.payload()[0];
+                    let len = sample.payload().len();
+                    for (i, x) in sample.payload().iter().enumerate().skip(1) {
+                        if *x != tag.wrapping_mul(1000).wrapping_add(i as u64 + len as u64) { oracle_fail("slice payload pattern broken at receive".to_string()); break; }
+                    }
+                    let origin = w.pub_ids.get(&sample.origin().value()).map(|p| p.to_string()).unwrap_or("?".into());
+                    w.samples.get_mut(&n(t[1])).unwrap().push((sample, tag));
+                    format!("some:{origin}:{tag}")
+                }
+                Ok(None) => "none".into(),
+                Err(e) => format!("err:{e:?}"),
+            },
+            None => "none".into(),
+        },
+        "dsample" => match w.samples.get_mut(&n(t[1])) {
+            Some(v) if n(t[2]) < v.len() => { let s = v.remove(n(t[2])); drop(s); "ok".into() }
+            _ => "none".into(),
+        },
+        "upd" => {
+            if t[1] == "p" { match w.pubs.get(&n(t[2])) { Some(p) => format!("{}", match p.update_connections() { Ok(()) => "ok".to_string(), Err(e) => format!("err:{e:?}") }), None => "none".into() } }
+            else { match w.subs.get(&n(t[2])) { Some(s) => format!("{}", match s.update_connections() { Ok(()) => "ok".to_string(), Err(e) => format!("err:{e:?}") }), None => "none".into() } }
+        }
+        "has" => match w.subs.get(&n(t[1])) { Some(s) => match s.has_samples() { Ok(b) => format!("{b}"), Err(e) => format!("err:{e:?}") }, None => "none".into() },
+        _ => panic!("bad op"),
+    };
+    // canary: everything a subscriber still holds must be unchanged
+    // the documented borrow limit is per subscriber
+    for (sl, v) in w.samples.iter() {
+        if w.subs.contains_key(sl) && v.len() > w.max_borrow {
+            oracle_fail("subscriber holds more samples than max borrowed samples".to_string());
+        }
+    }
+    for (sl, v) in w.samples.iter() {
+        for (s, tag) in v {
+            let len = s.payload().len();
+            let intact = s.payload()[0] == *tag && s.payload().iter().enumerate().skip(1).all(|(i, x)| *x == tag.wrapping_mul(1000).wrapping_add(i as u64 + len as u64));
+            if !intact {
+                let whose = if w.subs.contains_key(sl) { "live" } else { "dropped" };
+                oracle_fail(format!("held sample of {whose} subscriber changed"));
+            }
+        }
+    }
+    r
+}
+
 /// what exists of this case in the file system / shared memory namespace, by kind (ipc variant)
 fn list_resources(prefix: &str, node_dir: &str) -> String {
     let mut counts: std::collections::BTreeMap<String, usize> = Default::default();
@@ -206,12 +364,16 @@ impl Comp for PubSubComp {
         if t[0] == "new" {
             self.w = AnyWorld::None;
             return match t[1] {
+                "local-slice" => match mk_slice::<local::Service>(t) { Ok(w) => { self.w = AnyWorld::LocalSlice(Box::new(w)); "ok".into() } Err(e) => e },
+                "ipc-slice" => match mk_slice::<ipc::Service>(t) { Ok(w) => { self.w = AnyWorld::IpcSlice(Box::new(w)); "ok".into() } Err(e) => e },
                 "local" => match mk::<local::Service>(t) { Ok(w) => { self.w = AnyWorld::Local(Box::new(w)); "ok".into() } Err(e) => e },
                 _ => match mk::<ipc::Service>(t) { Ok(w) => { self.w = AnyWorld::Ipc(Box::new(w)); "ok".into() } Err(e) => e },
             };
         }
         match &mut self.w {
             AnyWorld::None => "no-world".into(),
+            AnyWorld::LocalSlice(w) => exec_slice(w, t),
+            AnyWorld::IpcSlice(w) => exec_slice(w, t),
             AnyWorld::Local(w) => exec(w, t),
             AnyWorld::Ipc(w) => exec(w, t),
         }
@@ -223,6 +385,32 @@ pub fn generate(a: &Args) -> Vec<Vec<String>> {
     let mut cases = vec![];
     let variant = a.rest.iter().find(|x| *x == "ipc").map(|_| "ipc").unwrap_or("local");
     let sat = a.rest.iter().any(|x| x == "sat");
+    if a.rest.iter().any(|x| x == "slice") && a.exhaustive == 0 && !a.rest.iter().any(|x| x == "shutdown") {
+        // slice payloads on a dynamically growing data segment: the same histories, every loan with a length;
+        // lengths mostly grow so that the data segment is reallocated while samples are held
+        let mut a2 = Args { mode: a.mode.clone(), seed: a.seed, cases: a.cases, len: a.len, exhaustive: 0, rest: a.rest.iter().filter(|x| *x != "slice").cloned().collect() };
+        a2.seed = a.seed ^ 0x51;
+        let mut rng = Rng::new(a.seed ^ 0x511ce);
+        let mut cases = generate(&a2);
+        for c in cases.iter_mut() {
+            // a publisher with a dynamic segment that goes away takes its not yet mapped segments with it: the
+            // receiver then reports a lost chunk (documented limitation, outside the model) — publishers stay
+            c.retain(|l| !l.starts_with("dpub "));
+            let mut cur = 1u64;
+            for l in c.iter_mut() {
+                if l.starts_with("new ") {
+                    let t: Vec<&str> = l.split(' ').collect();
+                    *l = format!("new {}-slice {}", t[1], t[2..].join(" "));
+                    cur = 1;
+                } else if l.starts_with("loan ") {
+                    if rng.chance(35) { cur = (cur * 2).min(64); }
+                    let len = if rng.chance(70) { cur } else { rng.range(1, cur) };
+                    *l = format!("loans {} {len}", &l[5..]);
+                }
+            }
+        }
+        return cases;
+    }
     fn lo(rng: &mut Rng) -> u64 { if rng.chance(10) { 0 } else { 1 } }
     if a.rest.iter().any(|x| x == "shutdown") {
         return shutdown_cases(a, variant);
